@@ -700,7 +700,7 @@ pub fn run(opts: Opts, projects: Vec<Project>) -> i32 {
         harness_error("no projects");
     }
     println!("simdb c13: tier={} VERIF_SEED={seed} projects={:?}", opts.tier, projects.iter().map(|p| p.name.clone()).collect::<Vec<_>>());
-    let per_batch = opts.histories.unwrap_or(if quick { 128 } else { 96 });
+    let per_batch = opts.histories.unwrap_or(if quick { 256 } else { 96 });
     let max_len = if quick { 12 } else { 30 };
     let mut all: Vec<HistoryResult> = vec![];
     let mut batch = 0u64;
